@@ -108,6 +108,7 @@ def src(items):
         elif k == "pattr": out.append("{{ %s.%s }}" % (S(it[1]), S(it[2])))
         elif k == "cattr": out.append('{{ %s.%s("%s") }}' % (S(it[1]), S(it[2]), S(it[3])))
         elif k == "keys": out.append("{%% for zk in %s %%}{{ zk }},{%% endfor %%}" % S(it[1]))
+        elif k == "setblock": out.append("{%% set %s %%}%s{%% endset %%}" % (S(it[1]), src(it[2])))
         else: raise ValueError(k)
     return "".join(out)
 
@@ -139,6 +140,7 @@ def enc_item(it):
     if k == "pattr": return [15, it[1], it[2]]
     if k == "cattr": return [16, it[1], it[2], it[3]]
     if k == "keys": return [17, it[1]]
+    if k == "setblock": return [18, it[1]] + enc_items(it[2])
     raise ValueError(k)
 
 
@@ -753,6 +755,101 @@ def gen_multidir(chk, cases):
     cases.append(Case(t, IA, kind="multidir/cycle", layout={k: lay[k] for k in t}))
 
 
+def gen_captures(chk, cases):
+    """modules whose names are defined by every defining construct (set, set-block, macro, re-exporting from-import / import,
+    loop-local set) and whose body contains captures; imported with import / from-import at every placement (a from-import
+    renders the module under a DISCARDING output: a set-block inside it must still capture), and the same constructs at the
+    top level of an extending template, used inside its blocks"""
+    G, Sv, M, X, Y, Z_, W, F, F2, Q, U, INNER, K = (VAR[c] for c in "gsmxyzwfhquik")
+    LIB, LIB2, BASE = 12, 13, 5
+    lib2 = [("set", Z_, T("Z")), text("lib2body"), ("setblock", W, [text("W"), ("print", G)])]
+    lib = [text("b1"), ("set", X, T("X")), ("setblock", Y, [text("Y("), ("print", G), ("print", X), text(")")]),
+           ("macro", F, [text("F"), ("print", V_PARAM), ("print", G)]), ("macro", F2, [text("F2"), ("print", X), ("print", V_PARAM)]),
+           ("from", lit(LIB2), [(Z_, Z_), (W, W)]), ("import", lit(LIB2), INNER), ("for", 1, [("set", U, T("U")), ("setblock", Q, [text("q")])]),
+           ("setblock", K, [text("K["), inc([lit(LIB2)]), ("for", 2, [("print", V_LOOP)]), text("]")]), text("b2")]
+    world = {LIB: lib, LIB2: lib2, BASE: [text("B("), blk(A, [text("ba")]), text(")")]}
+    uses = {
+        "import-as": [("import", lit(LIB), M), ("keys", M), text("|"), ("print", M), text("|")] + [z for v in (X, Y, Z_, W, K, U, Q) for z in (("pattr", M, v), text(","))]
+                     + [("cattr", M, F, T("a")), ("cattr", M, F2, T("b")), ("pattr", M, INNER)],
+        "from": [("from", lit(LIB), [(X, X), (Y, Y), (Z_, Z_), (W, W), (K, K), (F, F), (F2, F2), (INNER, Q), (U, U)])]
+                + [z for v in (X, Y, Z_, W, K, U) for z in (("print", v), text(","))] + [("call", F, T("a")), ("call", F2, T("b")), ("print", Q), ("pattr", Q, Z_)],
+        "from-aliases": [("from", lit(LIB), [(Y, X), (X, Y)]), ("print", X), text(","), ("print", Y)],
+        "setblock-local": [("setblock", Y, [text("local("), ("print", G), inc([lit(LIB2)]), text(")")]), ("print", Y), ("print", Y)],
+        "setblock-nested": [("setblock", Y, [text("o("), ("setblock", X, [text("i"), ("print", G)]), ("print", X), ("print", X), text(")")]), ("print", Y)],
+    }
+    def place(where, body):
+        if where == "top": return {1: [text("M(")] + body + [text(")")]}
+        if where == "for": return {1: [text("M("), ("for", 2, [text("(")] + body + [text(")")]), text(")")]}
+        if where == "macro": return {1: [("macro", VAR["w"], [text("(")] + body + [text(")")]), text("M("), ("call", VAR["w"], T("P")), text(")")]}
+        if where == "block": return {1: [text("M("), blk(A, [text("[")] + body + [text("]")]), text(")")]}
+        if where == "child-block": return {1: [("extends", lit(BASE)), blk(A, [text("[")] + body + [SUPER, text("]")])]}
+        if where == "from-imported": return {1: [("from", lit(2), [(X, X), (Y, Y)]), ("print", X), text("|"), ("print", Y)], 2: body}
+        if where == "imported": return {1: [("import", lit(2), VAR["v"]), ("print", VAR["v"]), text("|"), ("pattr", VAR["v"], Y)], 2: body}
+    for where in ("top", "for", "macro", "block", "child-block", "from-imported", "imported"):
+        for uname, body in uses.items():
+            for ctx in ({G: T("G")}, {}):
+                t = dict(world); t.update(place(where, body))
+                cases.append(Case(t, 1, dict(ctx), kind="captures/%s/%s" % (where, uname)))
+    # the top level of an extending template: set-blocks, imports and macros used inside its blocks (the text there is
+    # discarded, the values are not) - the specification does not speak about these (wf = 0): engine vs model
+    MM = VAR["w"]
+    for variant in range(4):
+        top = [("setblock", Sv, [text("Hi "), ("print", G)]), ("import", lit(LIB), M), ("from", lit(LIB), [(Y, Y), (K, K)]),
+               ("macro", MM, [text("mm"), ("print", V_PARAM)]), ("set", X, T("plain"))]
+        if variant == 1: top = top[:1]
+        if variant == 2: top = top[1:3]
+        if variant == 3: top = [("setblock", Sv, [text("o"), ("setblock", X, [text("i")]), ("print", X)]), ("import", lit(LIB2), M)]
+        body = [("print", Sv), text("|")]
+        if variant in (0, 2): body += [("print", M), text("|"), ("pattr", M, Y), text("|"), ("print", Y), ("print", K), ("cattr", M, F, T("a"))]
+        if variant == 0: body += [("call", MM, T("z")), ("print", X)]
+        if variant == 3: body += [("print", M), ("pattr", M, W), ("print", X)]
+        t = dict(world); t[1] = [("extends", lit(BASE))] + top + [blk(A, body + [SUPER])]
+        for ctx in ({G: T("G")}, {}):
+            cases.append(Case(t, 1, dict(ctx), kind="captures/child-top-level/%d" % variant))
+        t2 = dict(t); t2[1] = [("extends", lit(2))] + top + [blk(A, body + [SUPER])]; t2[2] = [("extends", lit(BASE)), ("setblock", Sv, [text("mid")]), blk(A, [text("m:"), ("print", Sv), SUPER])]
+        cases.append(Case(t2, 1, {G: T("G")}, kind="captures/child-top-level-chain/%d" % variant))
+
+
+def gen_alias_closures(chk, cases):
+    """from-import WITH an alias inside macro bodies, loops, blocks, while the ORIGINAL name is also bound in the importing
+    template (variable, macro, loop variable) and read by the same body: the import binds the alias only"""
+    G, TI, FL, TT, LF, OT, SHOW = (VAR[c] for c in "gtfalos")
+    LIB = 12
+    world = {LIB: [("set", TI, T("lib-title")), ("macro", FL, [text("libfield"), ("print", V_PARAM)]), ("set", V_LOOP, T("lib-i")), ("set", OT, T("lib-other"))]}
+    bodies = {
+        "variable": ([("set", TI, T("page-title"))], [("from", lit(LIB), [(TI, TT)]), ("print", TT), text("/"), ("print", TI)]),
+        "variable-after": ([("set", TI, T("page-title"))], [("print", TI), text("/"), ("from", lit(LIB), [(TI, TT)]), ("print", TT), text("/"), ("print", TI)]),
+        "macro": ([("macro", FL, [text("pagefield"), ("print", V_PARAM)])], [("from", lit(LIB), [(FL, LF)]), ("call", LF, T("1")), text("/"), ("call", FL, T("2"))]),
+        "two-aliases": ([("set", TI, T("page-title")), ("set", OT, T("page-other"))],
+                        [("from", lit(LIB), [(TI, TT), (OT, LF)]), ("print", TT), ("print", LF), text("/"), ("print", TI), ("print", OT)]),
+        "alias-shadows": ([("set", TI, T("page-title")), ("set", TT, T("page-alias"))], [("from", lit(LIB), [(TI, TT)]), ("print", TT), text("/"), ("print", TI)]),
+        "no-alias": ([("set", TI, T("page-title"))], [("from", lit(LIB), [(TI, TI)]), ("print", TI)]),
+        "context-name": ([], [("from", lit(LIB), [(TI, TT)]), ("print", TT), text("/"), ("print", TI), ("print", G)]),
+        "import-as": ([("set", TI, T("page-title"))], [("import", lit(LIB), TT), ("pattr", TT, TI), text("/"), ("print", TI)]),
+    }
+    def wrap(where, pre, body):
+        call = ("call", SHOW, 0)
+        if where == "macro": return pre + [("macro", SHOW, body), text("M("), call, text(")")]
+        if where == "macro-in-loop": return pre + [("for", 2, [("macro", SHOW, body), call, text(";")])]
+        if where == "macro-in-block": return pre + [blk(A, [("macro", SHOW, body), call])]
+        if where == "macro-loop-inside": return pre + [("macro", SHOW, [("for", 2, body + [text(";")])]), call]
+        if where == "nested-macro": return pre + [("macro", SHOW, [("macro", VAR["w"], body), ("call", VAR["w"], 0)]), call]
+        if where == "loop": return pre + [("for", 2, body + [text(";")])]
+        if where == "block": return pre + [blk(A, body)]
+        if where == "top": return pre + body
+    for where in ("macro", "macro-in-loop", "macro-in-block", "macro-loop-inside", "nested-macro", "loop", "block", "top"):
+        for bname, (pre, body) in bodies.items():
+            for ctx in ({}, {TI: T("ctx-title"), G: T("G")}):
+                t = dict(world); t[1] = wrap(where, pre, body)
+                cases.append(Case(t, 1, dict(ctx), kind="alias/%s/%s" % (where, bname)))
+    # the original name is the loop variable of the loop the macro is declared in
+    body = [("from", lit(LIB), [(V_LOOP, TT)]), ("print", TT), text("/"), ("print", V_LOOP)]
+    t = dict(world); t[1] = [("for", 3, [("macro", SHOW, body), ("call", SHOW, 0), text(";")])]
+    cases.append(Case(t, 1, kind="alias/loop-variable"))
+    t = dict(world); t[1] = [("for", 3, body + [text(";")])]
+    cases.append(Case(t, 1, kind="alias/loop-variable"))
+
+
 def gen_variants(chk, cases):
     """the same configurations served lazily through a loader, and under a path join callback with relative names"""
     rng = chk.rng
@@ -832,6 +929,8 @@ def all_cases(chk):
     gen_miss_history(chk, cases)
     gen_cycle_members(chk, cases)
     gen_multidir(chk, cases)
+    gen_captures(chk, cases)
+    gen_alias_closures(chk, cases)
     gen_outside_fragment(chk, cases)
     gen_variants(chk, cases)
     return cases
@@ -861,7 +960,7 @@ def main():
         "tools/props/C06.py: the template printer / integer encoder of the shared tree and C06/Runner.v (decoder) are unverified glue; the parser and compiler of the engine are covered by rendering the printed source",
         "the model works on the template tree, not on the instruction stream: that each construct compiles to the instructions the model lists is observed through the engine = model comparison, not proved"]
     chk.assumptions = [
-        "fragment: text, {{ var }}, set, if, for over range(n), blocks (nested, required), super(), self.block(), extends (literal / variable / conditional) at the head of a template, include (name / variable / list, ignore missing), one-parameter macros, import / from-import, module attribute / call / iteration; string values; default (lenient) undefined behaviour; no auto-escaping",
+        "fragment: text, {{ var }}, set, set-blocks, if, for over range(n), blocks (nested, required), super(), self.block(), extends (literal / variable / conditional) at the head of a template, include (name / variable / list, ignore missing), one-parameter macros with closures (snapshot of the enclosed names at the declaration), import / from-import with aliases, module attribute / call / iteration / body; string values; default (lenient) undefined behaviour; no auto-escaping",
         "inherit_correct speaks about templates whose extends tags come first and which, when they have one, consist of blocks, text, {{ var }} and self.block() besides (Spec.wf_env); statements at the top level of an extending template, text before an extends tag and macro closures are compared engine-vs-model only or excluded by the generator",
         "the theorems are about the code after the four fix commits (Model.fixed_code); the recursion limit is modelled (depth accounting of frames, includes +10, macros +4, blocks / super() +5 while they run), compared with the engine on the recursion / depth-boundary cases, and by limit_only_adds_errors it only turns results into (marked) errors; that every include cycle ends in such an error is observed, not proved"]
     okm, blog = build_models("C06")
@@ -928,7 +1027,7 @@ def main():
     chk.cov["distinct_nontrivial"] = len(nontriv)
     chk.cov["rule"] = ("exhaustive: every assignment of {absent, override, override + super() before, override + super() after} (+ nesting of c inside a) to blocks a, c for chains of 1-3 templates"
                        + (" and 4 templates" if chk.thorough else "; 4-template chains and the 3-block alphabet are seeded samples")
-                       + "; dynamic / conditional extends over all 2-template assignments + samples; EMPTY definitions at every level (exhaustive over one block for 2-4 templates); include / import placements (top level, for loop, macro, block, block of an extending template) x naming forms x targets; templates that exist but do not load (syntax error / failing loader) in include lists, with ignore missing, import, extends, render; a sample of all configurations served through Environment::set_loader and under a path join callback with relative names; histories of 3-200 missed include lookups (loops over include lists with missing candidates, ignore missing, in sequence) followed by includes / blocks / loops / nestings, at the default limit and at small limits right at the boundary; inheritance cycles of 2-4 templates whose members include / import / from-import / call macros / loop at their top level (before or after the extends tag); multi-directory layouts under the path join callback where the same written relative name names a different template per directory (include, list, ignore missing, loop, macro, block, import, from, extends, inherited blocks next to super(), a cross-directory cycle); cycles, double extends, missing templates, include cycles, recursion depth boundaries, required blocks. "
+                       + "; dynamic / conditional extends over all 2-template assignments + samples; EMPTY definitions at every level (exhaustive over one block for 2-4 templates); include / import placements (top level, for loop, macro, block, block of an extending template) x naming forms x targets; templates that exist but do not load (syntax error / failing loader) in include lists, with ignore missing, import, extends, render; a sample of all configurations served through Environment::set_loader and under a path join callback with relative names; histories of 3-200 missed include lookups (loops over include lists with missing candidates, ignore missing, in sequence) followed by includes / blocks / loops / nestings, at the default limit and at small limits right at the boundary; inheritance cycles of 2-4 templates whose members include / import / from-import / call macros / loop at their top level (before or after the extends tag); multi-directory layouts under the path join callback where the same written relative name names a different template per directory (include, list, ignore missing, loop, macro, block, import, from, extends, inherited blocks next to super(), a cross-directory cycle); modules defined through every defining construct (set, set-block incl. nested / with includes and loops, macros with closures, re-exporting from-import / import, loop-local sets) imported by import / from-import at every placement, under a discarding output and at the top level of extending templates; aliased from-imports inside macros / nested macros / loops / blocks while the original name is a template variable, macro, loop variable or context variable read by the same body; cycles, double extends, missing templates, include cycles, recursion depth boundaries, required blocks. "
                        "Each case is rendered by the engine in a debug and a release build and evaluated by the extracted model and specification. "
                        "non-trivial = distinct (templates, context) with at least two templates whose render is a non-empty text or an error")
     chk.cov["exhaustive"] = False
